@@ -377,6 +377,14 @@ class Impl:
         if op == 'ravel':
             import ravel_impl
             return ravel_impl.run(s)
+        if op in ('c16loop', 'c16walk'):
+            import mem_impl
+            # in a forked child: an invalid memory access kills the child, not the runner
+            status, text = mem_impl.in_child(lambda: (mem_impl.loop if op == 'c16loop' else mem_impl.walk)(s))
+            if status != 'ok':
+                return [A('fault')]
+            r = eval(text.split(' ', 1)[1])      # noqa: S307  (repr written by our own child)
+            return [A(r)] if isinstance(r, str) else [[A(r[0]), A(r[1])]]
         if op == 'aliashist':
             import alias_impl
             return [A(alias_impl.history(s))]
